@@ -78,6 +78,13 @@ class Defs:
                     k = "elem" if kind == "elem" else "unpack"
                     # enumerate(X): the 2nd component is an element of X
                     v = value
+                    if kind == "value" and not isinstance(e, (ast.Tuple, ast.List, ast.Starred)):
+                        # a, b = X   ->   a = X[0]; b = X[1]
+                        sub = ast.Subscript(value=value, slice=ast.Constant(i), ctx=ast.Load())
+                        ast.copy_location(sub, value)
+                        ast.fix_missing_locations(sub)
+                        self._bind(e, sub, stmt, "value")
+                        continue
                     if (
                         kind == "elem"
                         and isinstance(value, ast.Call)
